@@ -70,7 +70,9 @@ def world():
     w['empty_list'] = lambda x: z3.BoolVal(isinstance(x, Quoted) and len(x.items) == 0)
     for b in ('bad_options', 'opt_patch', 'opt_timeline', 'feat_timeline', 'mft_timeline', 'synthetic_error', 'has_mup'):
         w[b] = z3.Bool(b)
-    w['mup_num'], w['mup_den'] = z3.Int('mup_num'), z3.Int('mup_den')
+    w['mup_num'], w['mup_den'], w['publish_s'] = z3.Int('mup_num'), z3.Int('mup_den'), z3.Int('publish_s')
+    w['feat_patch'], w['mode_live_allowed'] = z3.Bool('feat_patch'), z3.Bool('mode_live_allowed')
+    w['micros'] = lambda dt: zint(dt.us)
     w['max_age_is'] = max_age_is
     w['mup'], w['update_count'], w['uc_none'] = z3.Int('mup'), z3.Int('update_count'), z3.Bool('uc_none')
     w['__bases__'] = {'ServeManifest': ['RequestHandlerBase'], 'LiveMedia': ['MediaRequestBase'], 'MediaRequestBase': ['RequestHandlerBase']}
@@ -360,6 +362,83 @@ def max_age_is(headers, value):
 SERVE_MANIFEST = [serve_manifest('live'), serve_manifest('vod')]
 
 
+# ----------------------------------------------------------------------------- ServePatch.get (C09, the MPD-patch endpoint)
+class FeatureSet:
+    def __init__(self, w):
+        self.w = w
+
+    def contains(self, eng, item):
+        return {'patch': self.w['feat_patch'], 'segmentTimeline': self.w['feat_timeline']}[item]
+
+
+class Modes:
+    def __init__(self, w):
+        self.w = w
+
+    def contains(self, eng, item):
+        if item == 'live':
+            return self.w['mode_live_allowed']
+        raise Unsupported('mode lookup')
+
+
+def serve_patch():
+    def env(w):
+        return {'self': Obj('ServePatch', {}), 'stream': Opaque('stream'), 'manifest': Opaque('name'), 'publish': w['publish_s'],
+                'kwargs': {},
+                'current_manifest': Obj('DashManifest', {'features': FeatureSet(w), 'restrictions': {'mode': Modes(w)}}),
+                'current_stream': Obj('Stream', {'title': Opaque('title')})}
+
+    def calculate_options(eng, e, a, kw):
+        if kw.get('mode') != 'live':
+            eng.oblige('call', 'calculate_options.mode_is_live', z3.BoolVal(False))
+        if eng.branch(eng.world['bad_options']):
+            raise PyRaise('ValueError')
+        return Obj('OptionsContainer', {'patch': eng.world['opt_patch'], 'segmentTimeline': eng.world['opt_timeline']})
+
+    def update(eng, e, a, kw):
+        eng.eval(e.func.value).f.update(kw)
+
+    def context(eng, e, a, kw):
+        d = dict(kw)
+        if eng.branch(eng.world['has_mup']):
+            d['minimumUpdatePeriod'] = Ratio(eng.world['mup_num'], eng.world['mup_den'])
+        return d
+
+    def make_response(eng, e, a, kw):
+        v = a[0]
+        if isinstance(v, tuple):
+            return Obj('Response', {'status': v[1], 'kind': 'patch', 'body': v[0], 'headers': v[2]})
+        return Obj('Response', {'status': a[1], 'kind': 'error'})
+    refused = '(not feat_patch or not feat_timeline or not mode_live_allowed or bad_options)'
+    return Contract(
+        key=f'{MFR}:ServePatch.get', props=['C09', 'C16'], env=env,
+        requires=[('update_period', 'mup_den >= 1 and mup_num >= 0'), ('publish', 'publish_s >= 0')],
+        models={'self.calculate_options': calculate_options, 'options.update': update,
+                'options.remove_unused_parameters': lambda eng, e, a, kw: None,
+                'attr:flask.request.args': lambda eng: Opaque('args'), 'html.escape': lambda eng, e, a, kw: Opaque('esc'),
+                'datetime.datetime.fromtimestamp': lambda eng, e, a, kw: DT(zint(a[0]) * 1000000), 'UTC': lambda eng, e, a, kw: Opaque('utc'),
+                'self.create_context': context,
+                'flask.render_template': lambda eng, e, a, kw: Obj('Rendered', {'options': kw['options'],
+                                                                              'original_publish_time': kw['original_publish_time']}),
+                'add_allowed_origins': lambda eng, e, a, kw: None, 'flask.make_response': make_response},
+        ctors={'ManifestContext': lambda eng, a, kw: Obj('ManifestContext', dict(kw))},
+        ensures=[
+            ('refused_400', f'(result.status == 400) if {refused} else True'),
+            ('patch_document', "(result.status == 200 and result.kind == 'patch' and result.body.options.patch == True and "
+                               "result.body.options.segmentTimeline == True and micros(result.body.original_publish_time) == 1000000 * publish_s) "
+                               f'if not {refused} else True'),
+            ('cache_lifetime', f'(max_age_is(result.headers, (mup_num // mup_den) if has_mup else 60)) if not {refused} else True'),
+        ],
+        canaries=['result.status == 400'],
+        witness_terms=lambda w: (lambda ev: dict({k: ev(z3.Bool(k)) for k in (
+            'bad_options', 'opt_patch', 'opt_timeline', 'feat_timeline', 'feat_patch', 'mode_live_allowed', 'has_mup')},
+            **{k: ev(z3.Int(k)) for k in ('mup_num', 'mup_den', 'publish_s')})),
+    )
+
+
+SERVE_PATCH = serve_patch()
+
+
 def lemma_fires_failure_count_times(w):
     """History: starting from a cleared counter, a 5xx error addressed to a segment fires on requests 1..fc for that
     segment, request fc+1 is served and clears the counter (then the cycle restarts) - by induction over the single-call
@@ -373,7 +452,7 @@ def lemma_fires_failure_count_times(w):
 
 
 GROUP = Group(
-    name='errors', world=world, contracts=[INCREMENT, RESET] + SYNTH + MANIFEST_ERR + SERVE_MANIFEST + INJECTED + [INC_INLINE, RST_INLINE, SCALE_INLINE],
+    name='errors', world=world, contracts=[INCREMENT, RESET] + SYNTH + MANIFEST_ERR + SERVE_MANIFEST + [SERVE_PATCH] + INJECTED + [INC_INLINE, RST_INLINE, SCALE_INLINE],
     lemmas=[Lemma('fires_failure_count_times', ['C16'], lemma_fires_failure_count_times)],
     bounded=[{'name': 'c16_options', 'props': ['C16'], 'cmd': ['/venv/bin/python', 'bounded/c16_options.py', '{tier}', '--repo', '{repo}']}],
     assumptions=[
